@@ -4,6 +4,7 @@ package layout
 
 import (
 	"sort"
+	"strings"
 
 	"github.com/tsawler/tabula/model"
 	"github.com/tsawler/tabula/text"
@@ -391,9 +392,10 @@ func (d *BlockDetector) validateBlocks(blocks []Block) []Block {
 			continue
 		}
 
-		// Skip blocks that are too small
-		if block.BBox.Width < d.config.MinBlockWidth ||
-			block.BBox.Height < d.config.MinBlockHeight {
+		// Skip blocks that are too small to be anything but noise - but never a
+		// block that carries text (a lone page number or narrow glyph is content)
+		if (block.BBox.Width < d.config.MinBlockWidth ||
+			block.BBox.Height < d.config.MinBlockHeight) && !blockHasText(block) {
 			continue
 		}
 
@@ -406,6 +408,16 @@ func (d *BlockDetector) validateBlocks(blocks []Block) []Block {
 	}
 
 	return valid
+}
+
+// blockHasText reports whether any fragment of the block has non-whitespace text
+func blockHasText(block Block) bool {
+	for _, f := range block.Fragments {
+		if strings.TrimSpace(f.Text) != "" {
+			return true
+		}
+	}
+	return false
 }
 
 // Helper functions
